@@ -37,6 +37,9 @@ CHECKS = {
  "C13": (MC, "vmc+py", "exhaustive strings x in-language round-trip/position laws; independent consumers (dash, Python stdlib) of every formatter",
    "All strings of length <= 2 (thorough 3) over 32 symbols (metacharacters of shell/CSV/HTML/URL, 1-4 byte characters, a lone invalid byte, NUL) as text and byte strings through 20 round-trip and position laws; 211 regexes x flag subsets x all short subjects for match/capture positions, test, splits reassembly and scan; @sh (alone, on arrays, inside a format string) evaluated by dash, @csv/@tsv/@json/@html/@uri/@base64 read back by independent readers; decoders on all short inputs must not decode a part of malformed input.",
    "trusted: dash, Python csv/json/html/urllib/base64; NUL excluded for @sh; @urid passing malformed sequences through is accepted (nothing truncated)", "DESIGN.md §2 C13"),
+ "C14": (MC, "vmc+py", "exhaustive placement of reserved string atoms in small trees x in-language identities; independent readers (PyYAML, tomllib, csv, minidom)",
+   "98 string atoms (reserved words, indicators, number-like spellings of YAML) at every position of a depth-2 tree (root, element, nested, value, key, adjacent pairs) plus one scalar of every kind and non-string keys: to<F>|from<F> is the identity on the documented domain and an error outside it for YAML, CBOR, TOML; all rows of <= 2 (thorough 3) fields over 33 field atoms for CSV/TSV; every XML token string of <= 4 (thorough 5) tokens accepted by the reader satisfies fromxml|toxml|fromxml == fromxml; what jaq writes is read back by independent readers with the same data; --to F | --from F on the command line agrees with the filters.",
+   "trusted: PyYAML BaseLoader (YAML 1.1: scalars starting with ':'/'?' and NEL/LS/PS are excluded from that reader only), tomllib, csv, minidom; documented exceptions of docs/formats.dj", "DESIGN.md §2 C14"),
 }
 PENDING = {}
 def main():
@@ -62,7 +65,7 @@ def main():
         "hooks": {"guard": "jaq_verif (reserved; no hooks are needed: every observation point is reachable through public API)", "enable": "none (checks build /repo unchanged)",
                   "baseline_off_cmd": "cd /repo && cargo test --workspace --no-fail-fast --offline", "source_commits": [], "add_only": True},
         "engines": [
-            {"name": "py", "path": "py", "serves_properties": ["C13"], "kind_free_text": "Python 3 standard-library drivers for process-level checks and independent consumers"},
+            {"name": "py", "path": "py", "serves_properties": ["C13", "C14"], "kind_free_text": "Python 3 standard-library drivers for process-level checks and independent consumers"},
             {"name": "vmc", "path": "harness/vmc", "serves_properties": sorted(CHECKS), "kind_free_text": "Rust harness: reference model (values, terms, CPS evaluator), exhaustive enumerators, trace conformance against /repo's library API"},
         ],
         "checks": checks,
